@@ -26,7 +26,7 @@ const modelAssumption = "trusted base: the SpecVM reference model (harness/specv
 
 // C04 — navigation stack and page index follow the move table
 func C04() *vk.Check {
-	mc := &modelCheck{ID: "C04", Kinds: kinds("position", "exec-error"), Drivers: []string{"long", "mem", "fs", "resume"}, HistLen: [2]int{4, 40}, N: [2]int{4000, 120000},
+	mc := &modelCheck{ID: "C04", Kinds: kinds("position", "exec-error", "stored-unreadable"), Drivers: []string{"long", "mem", "fs", "resume"}, HistLen: [2]int{4, 40}, N: [2]int{4000, 120000},
 		Profile: func(r *vk.RNG) app.Profile {
 			p := specProfile(r)
 			p.MaxNodes = 9
@@ -60,7 +60,7 @@ func C03() *vk.Check {
 
 // C05 — loaded symbols live as long as their stack level
 func C05() *vk.Check {
-	mc := &modelCheck{ID: "C05", Kinds: kinds("calls", "cache", "page-text", "over-limit", "exec-error"), Drivers: []string{"long", "mem", "fs", "resume"}, HistLen: [2]int{4, 30}, N: [2]int{4000, 120000},
+	mc := &modelCheck{ID: "C05", Kinds: kinds("calls", "cache", "page-text", "over-limit", "exec-error", "stored-unreadable"), Drivers: []string{"long", "mem", "fs", "resume"}, HistLen: [2]int{4, 30}, N: [2]int{4000, 120000},
 		// the persisted drivers go on past the end of the session (restart after a graceful end, TERMINATE cleared by the
 		// client after CROAK / dead ends): every purge of the cache must be followed by fresh loads
 		PastEnd: true,
@@ -75,8 +75,8 @@ func C05() *vk.Check {
 			return p
 		},
 		NonTrivial: func(s *sessStats) bool { return s.Calls >= 2 && s.MaxDepth >= 2 }}
-	return &vk.Check{ID: "C05", Level: "exploration", MinEvaluations: 300, Shards: func(string) int { return 16 }, Run: mc.run,
-		Rule:        "reference-model monitor: programs that LOAD the same symbol at several depths, re-enter nodes, RELOAD symbols loaded higher up, RELOAD to empty, MAP then move, with declared sizes {1..65535} and results of length {0, limit-1, limit, limit+1, 65536+limit±, 70000}; histories descend, ascend (_ ^), re-enter, and in the persisted drivers continue past the end of the session (graceful restart; CROAK purge and dead ends with TERMINATE cleared by the client). Per request the external-call log [(sym,input)] must equal the model's; after each request the real cache (keys, values, limits per scope; live and decoded stored snapshot) must equal the model's scopes; every non-paginated page must equal the model's text (so every sym#n shown is the current one and only mapped symbols are shown); no value longer than its limit may be stored. distinct = hash(app, history, driver); non-trivial = at least 2 external calls and depth >= 2.",
+	return &vk.Check{ID: "C05", Level: "exploration", MinEvaluations: 300, Shards: func(string) int { return 16 }, Run: func(c *vk.Ctx) { mc.run(c); c05Wide(c) },
+		Rule:        "reference-model monitor: programs that LOAD the same symbol at several depths, re-enter nodes, RELOAD symbols loaded higher up, RELOAD to empty, MAP then move, with declared sizes {1..65535} and results of length {0, limit-1, limit, limit+1, 65536+limit±, 70000}; histories descend, ascend (_ ^), re-enter, and in the persisted drivers continue past the end of the session (graceful restart; CROAK purge and dead ends with TERMINATE cleared by the client). Per request the external-call log [(sym,input)] must equal the model's; after each request the real cache (keys, values, limits per scope; live and decoded stored snapshot) must equal the model's scopes; every non-paginated page must equal the model's text (so every sym#n shown is the current one and only mapped symbols are shown); no value longer than its limit may be stored. Plus two sessions far wider than any generated one (1100 symbols at one level; 110 levels with twelve each). distinct = hash(app, history, driver); non-trivial = at least 2 external calls and depth >= 2.",
 		Assumptions: []string{modelAssumption}}
 }
 
@@ -102,6 +102,38 @@ func C18() *vk.Check {
 	return &vk.Check{ID: "C18", Level: "exploration", MinEvaluations: 300, Shards: func(string) int { return 16 }, Run: func(c *vk.Ctx) { mc.run(c); c18Gettext(c); c18DbStack(c) },
 		Rule:        "reference-model monitor: applications with a language switcher (results cycle through valid 2- and 3-letter codes, invalid strings and the empty string, returned with the LANG flag) loaded/reloaded at arbitrary points, translations present for random subsets of templates and labels, language configured or not, in a third of the cases with a language-dependent pre-VM function (Engine.WithFirst). Every GetCode/FuncFor/function/GetTemplate/GetMenu callback of the session must carry exactly the model's language (context value \"Language\"), State.Language in the live state and decoded stored snapshot must equal it, and each page must equal the text composed from the translation table (translation if present, default otherwise). distinct = hash(app, history, driver); non-trivial = lookups under at least two different languages were observed. Gettext leg: resource.PoResource over generated locale trees (key -> default text for random subsets of template and menu keys, default text -> translation for random subsets per registered language) against a dictionary model: every (key, kind, context language) lookup - language absent, default, registered, never registered - must return the translation if one exists and the default-language text otherwise. DbResource leg: the same generated applications stored in a key-value store (mem, fs) behind resource.DbResource (bytecode, templates + translations, labels + translations, functions via AddLocalFunc), long-lived and persisted; every request must answer exactly as through the recording resource.",
 		Assumptions: []string{modelAssumption, "an empty string returned with LANG is documented as 'reset': what lookups carry afterwards is don't-care until the next valid code"}}
+}
+
+// c05Wide: sessions that hold far more symbols than any generated one (one level with 1100, 110 levels with twelve
+// each), served per request: every symbol must stay loaded for as long as its level lives.
+func c05Wide(c *vk.Ctx) {
+	for i, shape := range [][2]int{{3, 1100}, {110, 12}} {
+		key := fmt.Sprintf("wide/%dx%d", shape[0], shape[1])
+		if !c.Mine(i+3) || !c.Want(key) {
+			continue
+		}
+		a, cfg, hist := wideApp(shape[0], shape[1])
+		c.Begin(key)
+		for _, drv := range []string{"mem", "long"} {
+			d, st := monitorSession(c, a, cfg, hist, sessOpts{Driver: drv})
+			c.Eval(vk.Hash64(key, drv), true)
+			c.Count("wide_session_requests", int64(st.Requests))
+			c.Max("max_symbols_visible_in_a_wide_session", int64(shape[0]*shape[1]))
+			if d == nil {
+				continue
+			}
+			if d.Kind == "harness" {
+				c.Inconclusive(d.Msg)
+				continue
+			}
+			sig := "wide:" + d.Kind
+			if d.Sub != "" {
+				sig += ":" + d.Sub
+			}
+			c.Violate(sig, fmt.Sprintf("%d levels with %d symbols each, step %d (%s driver): %s", shape[0], shape[1], d.Step, drv, d.Msg), key,
+				map[string]interface{}{"driver": drv, "config": cfg, "levels": shape[0], "symbols_per_level": shape[1], "history": printableHist(hist[:minInt(len(hist), d.Step+1)])})
+		}
+	}
 }
 
 func histWithClears(r *vk.RNG, a *app.App, lo, hi int) []string {
